@@ -719,12 +719,33 @@ pub fn c03_worker(ctx: &mut Ctx) {
     // W4: operator wrappers (dense in arithmetic hints) + W3 snippets.
     let mut sources: Vec<(String, String)> = crate::opmatrix::op_cases()
         .iter()
-        .filter(|c| matches!(c.name.as_str(), "add" | "sub" | "mul" | "div" | "rem" | "div_rem" | "lt" | "le" | "sqrt" | "wide_mul" | "overflowing_add" | "overflowing_sub" | "overflowing_mul" | "inv_mod" | "pow" | "neg") || c.name.starts_with("try_into"))
+        .filter(|c| matches!(c.name.as_str(), "add" | "sub" | "mul" | "div" | "rem" | "div_rem" | "lt" | "le" | "sqrt" | "wide_mul" | "overflowing_add" | "overflowing_sub" | "overflowing_mul" | "inv_mod" | "pow" | "neg") || c.name.starts_with("try_into") || c.name.starts_with("bounded_"))
         .map(|c| (format!("op::{}::{}", c.ty.name, c.name), crate::opmatrix::source_of(c)))
         .collect();
     // W3 snippets; these include the W5 coverage programs and the range-cast family.
     sources.extend(snippet_cases());
-    let explicit: HashMap<String, Vec<BigInt>> = range_cast_programs().into_iter().map(|(n, _, ins)| (n, ins)).collect();
+    let mut explicit: HashMap<String, Vec<BigInt>> = range_cast_programs().into_iter().map(|(n, _, ins)| (n, ins)).collect();
+    // Bounded-int cases: inputs around the constant (and around its negation), 0, +-1, type bounds.
+    for c in crate::opmatrix::op_cases().iter().filter(|c| c.name.starts_with("bounded_")) {
+        let digits = c.name.rsplit('_').next().unwrap_or("0");
+        let (neg, hex) = match digits.strip_prefix("-0x") {
+            Some(h) => (true, h),
+            None => (false, digits.trim_start_matches("0x")),
+        };
+        let Some(k) = BigInt::parse_bytes(hex.as_bytes(), 16) else { continue };
+        let k = if neg { -k } else { k };
+        let t = c.params[0];
+        let mut ins: Vec<BigInt> = vec![];
+        for base in [k.clone(), -k.clone(), BigInt::zero(), t.min(), t.max(), &k * 2, t.max() / k.clone().max(BigInt::one()) * &k] {
+            for d in [-2i32, -1, 0, 1, 2] {
+                let v = &base + d;
+                if t.contains(&v) && !ins.contains(&v) {
+                    ins.push(v);
+                }
+            }
+        }
+        explicit.insert(format!("op::{}::{}", c.ty.name, c.name), ins);
+    }
     ctx.count("programs", sources.len() as u64);
     let results: Vec<ShardResult> = sources
         .par_iter()
